@@ -248,6 +248,11 @@ def parse_int_text(s: str, base):
         body, lit_base = t[2:], 16
     ent = tt.sent.get(body)
     if ent is None:
+        if t[:1] == SPAN_START and t[-1:] == SPAN_END and t[1:-1].isdigit() and base in (None, 10, 0):
+            spec, value = tt.spans[builtins.int(t[1:-1])]
+            if spec in ("", "d"):
+                # the decimal rendering of a symbolic int read back: int(str(x)) == x
+                return -value if neg else value
         if has_placeholder(s):
             raise EngineUnsupported("int() of text containing placeholders")
         return NotImplemented
